@@ -18,6 +18,7 @@ P = "param.parameterized."
 def run(ctx):
     ctx.rule("R04.x", "context-manager model: _batch_call_watchers, batch_call_watchers, discard_events, _syncing and edit_constant interpreted abstractly with the body of the `with` supplied at the `yield` (62 cases: entry state x body ends normally / raises x nesting x queues replaced in the body x Parameter copies made in the body): flag, queues, syncing set and constant flags are, after the block, what they were before; the flush runs iff outermost, after the restore, also when the body raised", floor=1)
     ctx.rule("R04.r", "update-context exit: _ParametersRestorer.__exit__ interpreted abstractly (3 cases) assigns back every recorded previous value -- also one identical to the current value -- and every remembered reference in one update, and forgets the record, also when that update raises", floor=1)
+    ctx.rule("R04.y", "Event model: Event.__set__ interpreted abstractly on mode (set-reset / set / reset) x the assignment proper succeeds / is refused / a watcher raises: in set-reset the Event is assigned and then reset whatever happens, in set (held so by update/trigger while it is delivered) it is assigned and NOT reset, in reset it is only reset", floor=1)
     ctx.rule("R04.a", "while the batching flag is set _call_watcher executes nothing: on that arm the event and the watcher are queued (16 abstract cases incl. queued watchers, exhaustive)", floor=1)
     ctx.rule("R04.b", "every flush call outside the flush itself is controlled by `not <saved batching flag>` or `not <read of the flag>` (flush iff outermost)", floor=5)
     ctx.rule("R04.c", "coalescing: a watcher already queued (by identity) is not queued again, a different one is; the flush maps (name, what) -> last event in queue order, "
@@ -319,6 +320,8 @@ def run(ctx):
 
     from checks.shared import restorer_model
     restorer_model(ctx, "R04.r")
+    from checks.shared import event_model
+    event_model(ctx, "R04.y", "C04")
     from checks import update_model
     update_model.report(ctx, "C04", "R04.m")
     from checks import trigger_model
